@@ -164,9 +164,31 @@ def coq_term(c):
     return "K %d [%s]%%N %s %s" % (c["id"], "; ".join(str(x) for x in c["ctx"]), chunks(c["in"]), obs)
 
 
-def run(chk):
+def replay(chk, path):
+    """bin/check C18 --replay <evidence/replay/C18-*.json>: re-run the one recorded input (and
+    the valid encoding it was derived from) through the implementation and the model."""
+    import json
+    rec = json.load(open(path))
+    case = (rec.get("replay") or {}).get("case")
+    if not case:
+        chk.broken("replay file has no input (no-failing-input-found record)", json.dumps(rec)[:2000])
+        chk.finish(level="proof", rule="replay of " + path)
+    # a replay must not replace the evidence of the last full run: write to scratch instead
+    import os
+    import shutil
+    scratch = os.path.join(vlib.WORK, "c18-replay")
+    shutil.rmtree(scratch, ignore_errors=True)
+    os.makedirs(os.path.join(scratch, "replay"))
+    vlib.EVID, vlib.REPLAY = scratch, os.path.join(scratch, "replay")
+    spec = {k: case.get(k) for k in ("id", "ctx", "in", "kind")}
+    spec["parent"] = case.get("parent", "")
+    run(chk, extra_env={"VERIF_C18_REPLAY": json.dumps(spec)}, only_codec=case["codec"])
+
+
+def run(chk, extra_env=None, only_codec=None):
     proved = chk.prove()
     env = {"VERIF_SEED": chk.seed, "VERIF_TIER": chk.tier}
+    env.update(extra_env or {})
     cases = []
     found_input = False
     import os
@@ -179,13 +201,21 @@ def run(chk):
                              timeout=3000 if chk.tier == "thorough" else 600)
         got = vlib.read_jsonl(out)
         vlib.cleanup(out)
-        if rc != 0 or not got:
+        if rc != 0 or (not got and not extra_env):
             kind = vlib.classify_go_failure(o)
             chk.broken("correspondence harness %s %s no longer runs against /repo (%s)" % (pkg, test, kind), o)
         for c in got:
             c["dump"] = c.get("dump") or []
             c["vdump"] = c.get("vdump") or []
         cases += got
+
+    if only_codec is not None:
+        cases = [c for c in cases if c["codec"] == only_codec]
+        if not cases:
+            chk.broken("replay: no harness codec matches the recorded case", only_codec)
+        for c in cases:
+            vlib.log("replay: %s ctx %s kind %s input %s -> %s dump=%s reenc=%s" % (
+                c["codec"], c["ctx"], c["kind"], c["in"], c["res"], c.get("dump"), c.get("reenc")))
 
     # ---- implementation-side monitors
     bad = monitors(cases)
